@@ -273,6 +273,13 @@ def run_case(data):
                 break
             live.add(parent)
             fixed = ch.pick([None, 0, 1, 2])      # one way of closing for the whole phase, or a mix
+            refused_mode = ch.chance(64)
+            if refused_mode:
+                # the application has cancelled the request: every promise on it is refused (RST_STREAM on the
+                # promised id) and must leave nothing behind, however many there are
+                ep.call('reset_stream', parent)
+                live.discard(parent)
+                closed_total += 1
             for i in range(n // 2):
                 pid = next_peer
                 next_peer += 2
@@ -280,6 +287,8 @@ def run_case(data):
                 feed(wire.push_promise(parent, pid, enc.encode(REQ)), 1, 'push-flood')
                 if dead:
                     break
+                if refused_mode:
+                    continue
                 live.add(pid)
                 if how == 0:
                     feed(wire.rst_stream(pid, 8), 1, 'push-flood')
@@ -289,7 +298,7 @@ def run_case(data):
                     feed(wire.headers(pid, enc.encode(RESP), end_stream=True), 1, 'push-flood')
                 live.discard(pid)
                 closed_total += 1
-            if not dead and ch.bool():
+            if not dead and not refused_mode and ch.bool():
                 ep.call('reset_stream', parent)
                 live.discard(parent)
         elif phase == 'continuation':
